@@ -577,7 +577,9 @@ pub fn gen_c08(rng: &mut Rng, _i: u64, _tier: Tier) -> Script {
         s.set("ring_bits", bits as i64);
         s.set("ringfill", rng.below(1 << 30) as i64);
     } else {
-        s.set("cap_extra", rng.range(300, 1000) as i64);
+        // spare territory after the data, or (30 %) a slice that ends 0..3 bytes after it (copy-loop tails)
+        let ce = if rng.chance(3, 10) { rng.range(0, 3) } else { rng.range(300, 1000) };
+        s.set("cap_extra", ce as i64);
     }
     // budgets biased to 0..3 and the copy-loop corners
     let style = 4 * rng.pick(&[1u64, 2, 2]) + rng.pick(&[1u64, 2, 2, 3]);
